@@ -34,8 +34,10 @@ ASSUMPTIONS = [
     "at 5e-5 of the leaf's max-abs (+ a computed float32 cancellation bound); "
     "preconditioners at (n*err + n*1e-6 + 1e-5 + 256*n*p*u*kappa) of max-abs where "
     "err is the reported root error and kappa the regularised condition number "
-    "(roots with 256*n*p*u*kappa > 1e-3 are counted and skipped; 2e-3 extra for eigh "
-    "with a relative ridge, whose eigenvalue estimate is not reported)",
+    "(roots with 256*n*p*u*kappa > 1e-3 are counted and skipped); for eigh with a "
+    "relative ridge the eigenvalue estimate is not reported, so the preconditioner is "
+    "bracketed in the PSD order between the roots for the smallest and largest "
+    "admissible ridge (operator monotonicity)",
     "the ridge is reconstructed from the reported max_eigen_value / total_retries",
     "a preconditioner left bit-identical on a refresh step (root rejected or "
     "statistics unchanged) is accepted and counted, not compared",
@@ -265,13 +267,16 @@ def check(case):
             nsz = S.shape[0]
             lmax = float(np.linalg.eigvalsh((S + S.T) / 2)[-1])
             extra = 0.0
+            bracket_lo = None
             if o["eigh"]:
               if o["relative_matrix_epsilon"]:
-                if lmax < 1e-2:
-                  skipped_eigh += 1
-                  continue
+                # The eigenvalue estimate that scales the ridge is not reported for eigh and may be any Rayleigh
+                # quotient of S (the power iteration stops on an absolute 1e-6 change): d lies in
+                # [eps*max(lambda_min,1e-6), eps*max(lambda_max,1e-6)].  x -> (x+d)^(-1/p) is operator monotone in
+                # d, so the root is bracketed in the PSD order by the roots at the two ends.
+                wS = np.linalg.eigvalsh((S + S.T) / 2)
                 d = eps * max(lmax, 1e-6)
-                extra = 2e-3
+                bracket_lo = eps * max(float(max(wS[0], 0.0)), 1e-6)
               else:
                 d = eps
             else:
@@ -288,6 +293,18 @@ def check(case):
               skipped_eigh += 1     # conditioning beyond what float64 can resolve: no meaningful comparison
               continue
             tol = nsz * float(err) + nsz * 1e-6 + 1e-5 + extra + cond_slack
+            if bracket_lo is not None:
+              Phi = ref.inverse_root(S, lay.exponent, bracket_lo, clamp=True)      # smallest admissible ridge -> largest root
+              Pi = nw["pres"][k]
+              Pi = (Pi + Pi.T) / 2
+              scale = float(np.max(np.abs(Phi)))
+              lo_ok = float(np.linalg.eigvalsh(Pi - P)[0]) >= -tol * scale * nsz
+              hi_ok = Phi is not None and float(np.linalg.eigvalsh(Phi - Pi)[0]) >= -tol * scale * nsz
+              require(lo_ok and hi_ok, "preconditioner-is-inverse-root",
+                      f"{tag} preconditioner {k} (eigh, relative ridge): not between the inverse roots for ridge "
+                      f"{bracket_lo:.3g} and {d:.3g} in the PSD order")
+              compared += 1
+              continue
             worst = max(worst, _cmp(nw["pres"][k], P, tol, "preconditioner-is-inverse-root",
                                     f"{tag} preconditioner {k} (exponent {lay.exponent}, ridge {d:.3g}, reported error {err:.3g})"))
             compared += 1
